@@ -11,6 +11,7 @@ from ..common import w, wl, wll, rd, rdl, rdll, close, fr
 from rpylib.distribution.sampling import SamplingMethod
 from rpylib.grid.spatial import CTMCUniformGrid
 from rpylib.process.coupling.couplingmarkovchain import CouplingMarkovChain
+from rpylib.process.coupling.couplinglevycopula import CouplingProcessLevyCopula
 from rpylib.process.coupling.helper import create_build_finer_grid_fun
 from rpylib.process.levyprocess import LevyProcess, SimulationMaximumStep
 from rpylib.process.markovchain.markovchain import MarkovChainProcess
@@ -21,25 +22,33 @@ from rpylib.product.underlying import Asian, Discretisation
 
 RULE = ("finer: the two build_finer_grid closures (levyprocess.py, coupling/helper.py) on random dyadic arrays: 1..7 jump times on a "
         "1/64 mesh of [0, T], values with 1 or 2..3 rows, epsilon dyadic (gaps equal to epsilon and to multiples of it included), "
-        "epsilon >= T included. sim: real LevyProcess (HEM/Merton), MarkovChainProcess and CouplingMarkovChain (level 1, fixed 9-point "
-        "grid, h dyadic) objects in the three simulation modes (fixed dates / jump times / maximum step) for 1..6 product dates "
-        "(stub product returning arbitrary dyadic dates; one case per run on a real Asian product), with the Poisson counts, "
-        "uniforms, normals, jump sizes / state increments prescribed from the harness (numpy.random wrapped, bound methods replaced) "
-        "and the coarse increments captured from coupling_state. non-trivial = at least one jump (sim) / one inserted point or "
-        ">= 2 jump times (finer); distinct = distinct full script")
+        "epsilon >= T included. sim: real LevyProcess (HEM/Merton), MarkovChainProcess, CouplingMarkovChain (level 1, fixed 9-point "
+        "grid, h dyadic), MarkovChainLevyCopula (d = 2, 3; one date) and CouplingProcessLevyCopula (d = 2 independent / Clayton, d = 3 "
+        "independent; level 1, one directed case at level 2; 1..6 dates) objects in the three simulation modes (fixed dates / jump times / "
+        "maximum step) for 1..6 product dates (stub product returning arbitrary dyadic dates; one case per run on a real Asian product), "
+        "with the Poisson counts, uniforms, normals, jump sizes / state increments prescribed from the harness (numpy.random wrapped, bound "
+        "methods replaced) and the coarse increments captured from the real coupling_state / __coupling_state (scripted coupling uniforms). "
+        "Directed edge cases for every simulator: a product date at 2^-20, epsilon = 2^-8 (hundreds of inserted points), epsilon = 1024 T, "
+        "six dates without any jump, last jump exactly epsilon / half epsilon before the maturity; two equal consecutive dates (outside the "
+        "quantifier: recorded whether rejected, model compared). Every simulated row is classified by the domain predicate of its "
+        "equivalence theorem (in / out of domain, both well populated) and the implementation is checked against both sides. "
+        "non-trivial = at least one jump (sim) / one inserted point or >= 2 jump times (finer); distinct = distinct full script")
 NOT_PROVED = ["np.sort of the uniform offsets and np.insert / np.cumsum / np.diff kernels are trusted (the model takes sorted offsets)",
-              "the scaling sqrt(dt)*sigma of the Brownian increments is an input of the model (compared at 2^-40); only the running-sum "
-              "assembly is proved",
-              "the Levy-copula CTMC simulator is exercised for one product date only (it raises for more, recorded); the coupled "
-              "copula simulator (CouplingProcessLevyCopula) shares the helper.py closure checked here, its own stacking is not exercised",
-              "full-strength running sums / step cap are proved for the specification functions and for the code only on the inputs "
-              "where they hold (one product date / last gap <= epsilon): theorems running_sums_partial, "
-              "running_sums_jump_times_ctmc_partial, maxStepCode_steps_le_eps_partial; the negations are theorems "
-              "running_sums_counterexample, running_sums_jump_times_ctmc_counterexample, last_gap_uncapped"]
+              "the scaling sqrt(dt)*sigma (sqrt(dt) * D @ Z for the copula simulators) of the Brownian increments is an input of the model "
+              "(compared at 2^-40); only the running-sum assembly is proved",
+              "the coarse state increments of the coupled simulators are inputs (their law is C03's subject); the non-coupled Levy-copula "
+              "CTMC simulator is exercised for one product date only (it raises for more, recorded)",
+              "the full-strength running sums / step cap are FALSE of the code (negation theorems running_sums_counterexample, "
+              "running_sums_jump_times_ctmc_counterexample, last_gap_uncapped); what is proved instead is the exact domain on which the "
+              "code as modelled satisfies them: fixedDates_code_eq_spec_iff (every interval but the last has zero jump sum), "
+              "jumpValsCtmc_eq_direct_iff / jumpTimesCtmc_eq_direct_iff (zero carried total before every interval that jumps), "
+              "maxStepCode_steps_le_eps_iff / maxStepCode_eq_spec_iff / coupled_steps_le_eps_iff / copula_steps_le_eps_iff (T - last jump <= epsilon); the d-dimensional "
+              "coupled copula output is tied to these 1-d statements row by row (copula_fixed_coordinate, copula_jump_times_is_ctmc, "
+              "copula_maxstep_is_single, copula_rows_iff, copula_jump_times_rows_iff)"]
 ASSUMPTIONS = ["product dates strictly increasing from 0; uniforms distinct and strictly inside (0,1); epsilon > 0",
                "inputs are dyadic so that every float operation on times and jump values is exact (diffusion values compared at 2^-40)"]
-TRUSTED = ["replacement of numpy.random.normal/random_sample/uniform and of the bound methods nb_jump_dt / jump_increment / _sampling / "
-           "coupling_state from the harness"]
+TRUSTED = ["replacement of numpy.random.normal/random_sample/uniform, of CouplingProcessLevyCopula._uniform and of the bound methods nb_jump_dt / "
+           "jump_increment / _sampling / sampling.sample / coupling_state / __coupling_state from the harness"]
 
 
 # --------------------------------------------------------------------------------------------- the closures
@@ -201,6 +210,21 @@ class Script:
         return np.array(vals, float)
 
 
+class CyclicUniform:
+    """stands for CouplingProcessLevyCopula._uniform: the scripted coupling uniforms, cyclically"""
+
+    def __init__(self, values):
+        self.values, self.k = list(values), 0
+
+    def sample(self, size=1):
+        v = self.values[self.k % len(self.values)]
+        self.k += 1
+        return v
+
+    def reset_sampling_cost(self):
+        pass
+
+
 def make_grid(desc):
     return CTMCUniformGrid.create_from_fixed_nb_of_points(h=desc["h"], nb_of_points=9, dimension=1)
 
@@ -208,8 +232,8 @@ def make_grid(desc):
 def run_sim(desc):
     """builds the simulator, drives it with the script; returns dict(times, diff, jumps, sizes (per interval, fine/coarse), sig)"""
     sim, mode, dates = desc["sim"], desc["mode"], desc["dates"]
-    if sim == "copula":
-        model = zoo.make_copula_model([zoo.make_levy(desc["family"], desc["params"]), zoo.make_levy(desc["family"], desc["params"])],
+    if sim in ("copula", "ccopula"):
+        model = zoo.make_copula_model([zoo.make_levy(desc["family"], desc["params"]) for _ in range(desc.get("dim", 2))],
                                       zoo.make_copula(desc.get("copula", "independent")))
     else:
         model = zoo.make_levy(desc["family"], desc["params"])
@@ -256,7 +280,7 @@ def run_sim(desc):
             path = two_paths(sc, p.simulate_one_path)
             sig = [float(model.diffusion_coefficient())]
         elif sim == "copula":
-            g = CTMCUniformGrid.create_from_fixed_nb_of_points(h=desc["h"], nb_of_points=5, dimension=2)
+            g = CTMCUniformGrid.create_from_fixed_nb_of_points(h=desc["h"], nb_of_points=5, dimension=desc.get("dim", 2))
             p = MarkovChainLevyCopula(levy_copula_model=model, grid=g, method=SamplingMethod.INVERSION)
             p.nb_jump_dt = lambda dt: next(counts)
             p.sampling.sample = lambda size: [tuple(int(v) for v in next(flat)) for _ in range(size)]
@@ -273,6 +297,39 @@ def run_sim(desc):
             p.pre_computation(npaths, prod)
             path = two_paths(sc, p.simulate_one_path)
             sig = [float(p.equivalent_diffusion_coefficient)]
+        elif sim == "ccopula":
+            # the coupled Levy-copula simulator (couplinglevycopula.py): fine increments scripted, the coarse increment of every
+            # jump is what the real __coupling_state returns (scripted coupling uniforms), logged at the top-level call
+            g = CTMCUniformGrid.create_from_fixed_nb_of_points(h=desc["h"], nb_of_points=5, dimension=desc.get("dim", 2))
+            cp = CouplingProcessLevyCopula(levy_copula_model=model, grid=g, method=SamplingMethod.INVERSION)
+            cp.initialisation(prod, max_step_epsilon=eps)
+            cp.pre_computation(1, prod)
+            for _ in range(desc.get("level", 1)):
+                cp.next_level(1, None, prod, max_step_epsilon=eps)
+            sc.nz, sc.normals, sc.k_interval, sc.uni_calls, sc.cu = 0, [], 0, [], 0
+            g = cp.grid
+            p = cp.fine_process
+            p.nb_jump_dt = lambda dt: next(counts)
+            p.sampling.sample = lambda size: [tuple(int(v) for v in next(flat)) for _ in range(size)]
+            cp._uniform = CyclicUniform(desc["cu"])
+            csim = cp._path_coupling_simulation
+            mangled = "_CouplingLevyCopulaSimulation__coupling_state"
+            orig_cs = getattr(csim, mangled)
+            depth = [0]
+
+            def logged_nd(increment, axis_coordinates=None):
+                depth[0] += 1
+                try:
+                    v = orig_cs(increment, axis_coordinates)
+                finally:
+                    depth[0] -= 1
+                if depth[0] == 0:
+                    coarse_log.append([float(x) for x in np.asarray(v, float).reshape(-1)])
+                return v
+            setattr(csim, mangled, logged_nd)
+            cp.pre_computation(npaths, prod)
+            path = two_paths(sc, cp.simulate_one_path_with_coupling)
+            sig = [np.asarray(cp._diffusion_matrix_h, float).real.tolist(), np.asarray(cp._diffusion_matrix_2h, float).real.tolist()]
         else:
             g = make_grid(desc)
             cp = CouplingMarkovChain(model=model, method=SamplingMethod.INVERSION, grid=g)
@@ -300,15 +357,24 @@ def run_sim(desc):
             normals = normals[len(normals) // 2:]
     times = np.asarray(path.jump_times if not hasattr(path.jump_times, "grid") else path.jump_times.grid, float)
     out = dict(times=[float(x) for x in np.asarray(times).reshape(-1)], sig=sig, normals=normals, dates=dates_used)
-    out["diff"] = np.atleast_2d(np.asarray(path.diffusion_path, float)).tolist()
-    out["jumps"] = np.atleast_2d(np.asarray(path.jump_path, float)).tolist()
+    def rows2d(a):
+        a = np.asarray(a, float)
+        return (a.reshape(-1, a.shape[-1]) if a.ndim == 3 else np.atleast_2d(a)).tolist()      # (2, d, n) -> 2d rows: fine 0..d-1, coarse 0..d-1
+    out["diff"] = rows2d(path.diffusion_path)
+    out["jumps"] = rows2d(path.jump_path)
+    out["shape"] = list(np.asarray(path.jump_path).shape)
     # jump sizes actually used, per product interval
     if sim == "direct":
         out["sizes"] = [[[float(x) for x in iv] for iv in desc["incs"]]]
-    elif sim == "copula":
+    elif sim in ("copula", "ccopula"):
+        dim = desc.get("dim", 2)
         o = g.origin_coordinate
         vals = [[[float(v) for v in g[o + tuple(int(x) for x in i)]] for i in iv] for iv in desc["incs"]]
-        out["sizes"] = [[[v[c] for v in iv] for iv in vals] for c in range(2)]
+        out["sizes"] = [[[v[c] for v in iv] for iv in vals] for c in range(dim)]
+        if sim == "ccopula":
+            it = iter(coarse_log)
+            cvals = [[next(it) for _ in iv] for iv in desc["incs"]]
+            out["sizes"] += [[[v[c] for v in iv] for iv in cvals] for c in range(dim)]
     else:
         grid = g
         o = grid.origin_coordinate
@@ -325,6 +391,12 @@ def scaled_rows(out, dts):
     """per output row, the scaled Brownian increments sqrt(dt_k) * (sigma z)_k of the consumed normals (None: wrong count)"""
     n = len(dts)
     sq = np.sqrt(np.asarray(dts, float))
+    if out["sig"] and isinstance(out["sig"][0], list) and isinstance(out["sig"][0][0], list):     # coupled copula: D_h, D_2h, one block
+        Dh, D2h = (np.array(m_, float) for m_ in out["sig"])
+        if len(out["normals"]) != Dh.shape[0] * n:
+            return None
+        Z = np.array(out["normals"], float).reshape(Dh.shape[0], n)
+        return [list(r) for r in (sq * (Dh @ Z))] + [list(r) for r in (sq * (D2h @ Z))]
     if out["sig"] and isinstance(out["sig"][0], list):           # copula: diffusion matrix times a (dim, n) block of normals
         D = np.array(out["sig"], float)
         if len(out["normals"]) != D.shape[0] * n:
@@ -368,6 +440,8 @@ def probe_sim(ctx, desc):
     cls = dict(sim=sim, mode=mode, n_dates=n_dates, no_jump=njumps == 0,
                equal_counts=len(set(desc["counts"][:n_dates])) <= 1,
                last_gap_exceeds_eps=bool(mode == "maxstep" and last_gap > eps))
+    if sim in ("copula", "ccopula"):
+        cls["dim"] = desc.get("dim", 2)
     probe = "c15.sim"
     try:
         with warnings.catch_warnings():
@@ -401,11 +475,34 @@ def probe_sim(ctx, desc):
     if exp_d is None or any(abs(a - b) > 1e-12 * (1 + abs(b)) for r, e in zip(diff, exp_d) for a, b in zip(r, e)):
         ctx.fail("oracle", probe + ".diffusion_running_sums", desc, {"what": "diffusion component is not the running sum of the scaled Brownian increments",
                                                                     "impl": diff, "expected": exp_d, "times": times}, cls=cls)
+    # both sides of the equivalences that delimit the recorded running-sum faults, row by row: the implementation's row is the running
+    # sum  <=>  the theorem's domain predicate holds of the increments it consumed
+    preds = domain_predicates(ctx, desc, out)
+    for c, ((mine, lean), r, e) in enumerate(zip(preds, jumps, exp_j)):
+        row_ok = all(a == b for a, b in zip(r, e))
+        ctx.branches[f"c15.sim.iff:{'fixed' if mode == 'fixed' else 'jump_times'}:{'in' if lean else 'out_of'}_domain"] += 1
+        if mine != lean:
+            ctx.fail("corr", "c15.sim.iff", desc, {"name": "Drivers/C15 iff (domain decider of the model) vs the harness' reading of the theorem's right-hand side",
+                                                   "row": c, "harness": mine, "model": lean}, cls=cls)
+        elif lean and not row_ok:
+            ctx.fail("oracle", probe + ".running_sums_in_domain", desc,
+                     {"what": "jump component is not the running sum although the increments are inside the domain on which the code as modelled "
+                              "satisfies the full statement (fixedDates_code_eq_spec_iff / jumpValsCtmc_eq_direct_iff)", "row": c, "impl": r, "expected": e,
+                      "times": times}, cls=cls)
+        elif not lean and row_ok:
+            ctx.fail("corr", "c15.sim.iff", desc, {"name": "the implementation returns running sums outside the domain on which the model of the code does "
+                                                           "(theorem fixedDates_code_eq_spec_iff / jumpValsCtmc_eq_direct_iff): the model no longer mirrors the code",
+                                                   "row": c, "impl": r}, cls=cls)
     if any(a != b for r, e in zip(jumps, exp_j) for a, b in zip(r, e)):
         ctx.fail("oracle", probe + ".running_sums", desc, {"what": "jump component is not the running sum of the jump increments up to each time",
                                                           "impl": jumps, "expected": exp_j, "times": times}, cls=cls, mirrors_model=mirrors)
     if mode == "maxstep":
         steps = [b - a for a, b in zip(times, times[1:])]
+        # maxStepCode_steps_le_eps_iff: every step <= eps  <=>  T - (last jump time, 0 if none) <= eps
+        ctx.branches[f"c15.sim.iff:max_step:{'in' if last_gap <= eps else 'out_of'}_domain"] += 1
+        if max(steps) <= eps and last_gap > eps:
+            ctx.fail("corr", "c15.sim.iff", desc, {"name": "every step is within epsilon although the last gap exceeds it (theorem maxStepCode_steps_le_eps_iff): "
+                                                           "the model no longer mirrors the code", "times": times, "epsilon": eps}, cls=cls)
         if max(steps) > eps and eps < T:
             worst = max(range(len(steps)), key=lambda i: steps[i])
             only_last = all(s <= eps for s in steps[:-1])
@@ -432,6 +529,8 @@ def lean_compare(ctx, desc, out, cls):
     ok = True
     comps = []
     wrows = scaled_rows(out, dts)
+    if sim == "ccopula":
+        return lean_compare_ccopula(ctx, desc, out, cls, wrows)
     for c, sizes in enumerate(out["sizes"]):
         wv = wrows[c] if wrows is not None else []
         us = [sorted(u) for u in desc["uniforms"][:n_dates]]
@@ -445,6 +544,15 @@ def lean_compare(ctx, desc, out, cls):
                 jt, jv = rdl(a[0])[1:-1], rdl(a[2])[1:-1]
                 comps.append((jt, jv))
                 ans = ctx.lean(f"maxstep code {w(desc['eps'])} {w(dates[-1])} {wl(jt)} {wl(jv)} {wl(wv)}")
+                # maxStepCode_eq_spec_iff: the whole returned row (times, values) is the specified capped path  <=>  T - last jump <= eps
+                spec = ctx.lean(f"maxstep spec {w(desc['eps'])} {w(dates[-1])} {wl(jt)} {wl(jv)} {wl(wv)}").split(" ")
+                impl_is_spec = (len(spec) == 3 and rdl(spec[0]) == [fr(x) for x in times] and rdl(spec[2]) == [fr(x) for x in out["jumps"][c]])
+                in_domain = fr(dates[-1]) - (jt[-1] if jt else 0) <= fr(desc["eps"])
+                if impl_is_spec != in_domain:
+                    ctx.fail("oracle" if in_domain else "corr", "c15.sim.max_step_spec" if in_domain else "c15.sim.iff", desc,
+                             {"what": "returned path vs the specified capped path (maturity part of the capped grid): equal exactly when the last gap is within "
+                                      "epsilon (theorem maxStepCode_eq_spec_iff)", "impl_equals_spec": impl_is_spec, "last_gap_within_eps": in_domain,
+                              "impl_times": times, "spec": [x[:200] for x in spec]}, cls=cls)
         a = ans.split(" ")
         good = (len(a) == 3 and rdl(a[0]) == [fr(x) for x in times] and rdl(a[2]) == [fr(x) for x in out["jumps"][c]]
                 and len(rdl(a[1])) == len(out["diff"][c]) and all(close(p, l) for p, l in zip(out["diff"][c], rdl(a[1]))))
@@ -462,8 +570,73 @@ def lean_compare(ctx, desc, out, cls):
     return ok
 
 
+def lean_compare_ccopula(ctx, desc, out, cls, wrows):
+    """the coupled copula simulator against its own d-dimensional model (Drivers/C15 cfixed / cjt / cmax): the whole (2, d, n)
+    blocks on the shared times in one request"""
+    mode, dates, times = desc["mode"], out["dates"], out["times"]
+    d = desc.get("dim", 2)
+    n_dates = len(dates) - 1
+    sizes = out["sizes"]
+
+    def flat_rows(block):          # per interval: its d-vectors flattened
+        return [[block[c][k][i] for i in range(len(block[0][k])) for c in range(d)] for k in range(n_dates)]
+    iF, iC = flat_rows(sizes[:d]), flat_rows(sizes[d:])
+    nsteps = len(times) - 1
+    if wrows is None:
+        wF = wC = []
+    else:
+        wF = [[wrows[c][i] for c in range(d)] for i in range(nsteps)]
+        wC = [[wrows[d + c][i] for c in range(d)] for i in range(nsteps)]
+    us = [sorted(u) for u in desc["uniforms"][:n_dates]]
+    if mode == "fixed":
+        ans = ctx.lean(f"cfixed {d} {wl(dates)} {wll(iF)} {wll(iC)} {wll(wF)} {wll(wC)}")
+    elif mode == "jump_times":
+        ans = ctx.lean(f"cjt {d} {wl(dates)} {wll(us)} {wll(iF)} {wll(iC)} {wll(wF)} {wll(wC)}")
+    else:
+        ans = ctx.lean(f"cmax {d} {w(desc['eps'])} {wl(dates)} {wll(us)} {wll(iF)} {wll(iC)} {wll(wF)} {wll(wC)}")
+    a = ans.split(" ")
+    good = len(a) == 5 and rdl(a[0]) == [fr(x) for x in times] and out.get("shape") == [2, d, len(times)]
+    if good:
+        mdF, mdC, mF, mC = (rdll(x) for x in a[1:])            # one row per time, d entries
+        n = len(times)
+        for c in range(d):
+            good = good and [r[c] for r in mF] == [fr(x) for x in out["jumps"][c]] and [r[c] for r in mC] == [fr(x) for x in out["jumps"][d + c]]
+            good = good and len(mdF) == n and all(close(p_, l[c]) for p_, l in zip(out["diff"][c], mdF))
+            good = good and len(mdC) == n and all(close(p_, l[c]) for p_, l in zip(out["diff"][d + c], mdC))
+    if not good:
+        ctx.fail("corr", "c15.sim.model", desc, {"name": f"Drivers/C15 coupled copula ({mode}, d={d}) vs CouplingProcessLevyCopula.simulate_one_path_with_coupling",
+                                                 "impl_times": times, "impl_jumps": out["jumps"], "model": [x[:300] for x in a]}, cls=cls)
+    return good
+
+
+def domain_predicates(ctx, desc, out):
+    """right-hand sides of the equivalences of Proofs/C15 section 7, per output row, decided by the Lean model (Drivers/C15 iff ...) and
+    recomputed here: fixed dates - every interval but the last has zero jump sum (fixedDates_code_eq_spec_iff); jump times of the
+    chain simulators - the carried total is 0 before every interval that jumps (jumpValsCtmc_eq_direct_iff); the direct simulator
+    accumulates globally (running_sums_jump_times)"""
+    sim, mode = desc["sim"], desc["mode"]
+    n_dates = len(out["dates"]) - 1
+    res = []
+    for sizes in out["sizes"]:
+        sizes = [list(iv) for iv in sizes[:n_dates]]
+        if mode == "fixed":
+            mine = all(math.fsum(iv) == 0 for iv in sizes[:-1])
+            lean = ctx.lean(f"iff fixed {wll(sizes)}") if len(sizes) >= 1 and any(sizes) else ("1" if mine else "0")
+        elif sim == "direct":
+            mine, lean = True, "1"
+        else:
+            acc, mine = 0.0, True
+            for iv in sizes:
+                if iv and acc != 0:
+                    mine = False
+                acc += math.fsum(iv)
+            lean = ctx.lean(f"iff restart {wll(sizes)}") if any(sizes) else "1"
+        res.append((mine, lean == "1"))
+    return res
+
+
 def gen_sim(rng, sim=None, mode=None, n_dates=None):
-    sim = sim or rng.choice(["direct", "ctmc", "coupled"])
+    sim = sim or rng.choice(["direct", "ctmc", "coupled", "ccopula"])
     mode = mode or rng.choice(["fixed", "jump_times", "maxstep"])
     n_dates = n_dates or rng.choice([1, 1, 2, 2, 3, 4, 5, 6])
     T = rng.choice([0.5, 1.0, 2.0])
@@ -474,7 +647,7 @@ def gen_sim(rng, sim=None, mode=None, n_dates=None):
     for k in range(n_dates):
         if style < 0.12:
             counts.append(0)
-        elif style < 0.3 and sim == "coupled" and mode != "fixed":
+        elif style < (0.3 if sim == "coupled" else 0.5) and sim in ("coupled", "ccopula") and mode != "fixed":
             counts.append(counts[0] if counts else rng.randint(1, 3))        # equal counts: the only shape the coupled jump-time code accepts
         else:
             counts.append(rng.choice([0, 0, 1, 1, 2, 3]))
@@ -484,8 +657,16 @@ def gen_sim(rng, sim=None, mode=None, n_dates=None):
     h = rng.choice([0.125, 0.25])
     if sim == "direct":
         incs = [[rng.randint(-16, 16) / 16 for _ in range(c)] for c in counts]
-    elif sim == "copula":
-        cells = [(a, b) for a in range(-2, 3) for b in range(-2, 3) if (a, b) != (0, 0)]
+    elif sim in ("copula", "ccopula"):
+        import itertools
+        dim = rng.choice([2, 2, 3])
+        cop = rng.choice(["independent", "clayton"]) if dim == 2 else "independent"
+        reach = 2 if sim == "copula" else 4          # the coupled simulator runs on the grid refined once: 9 points per axis
+        if sim == "ccopula" and cop == "independent":
+            # the coarse increment comes from the real coupling: only states of positive rate (on the axes for independent components)
+            cells = [tuple(v if k == ax else 0 for k in range(dim)) for ax in range(dim) for v in range(-reach, reach + 1) if v != 0]
+        else:
+            cells = [c_ for c_ in itertools.product(range(-reach, reach + 1), repeat=dim) if any(c_)]
         incs = [[list(rng.choice(cells)) for _ in range(c)] for c in counts]
     else:
         hi = 8 if sim == "coupled" else 4
@@ -493,8 +674,9 @@ def gen_sim(rng, sim=None, mode=None, n_dates=None):
     uniforms = [[u / 64 for u in rng.sample(range(1, 64), c)] for c in counts] if mode != "fixed" else [[] for _ in counts]
     desc = dict(sim=sim, mode=mode, dates=dates, counts=counts, incs=incs, uniforms=uniforms, zseed=rng.randrange(10 ** 6),
                 cu=[rng.random() for _ in range(8)], family=fam, params=params, h=h)
-    if sim == "copula":
-        desc["copula"] = rng.choice(["independent", "clayton"])
+    if sim in ("copula", "ccopula"):
+        desc["copula"], desc["dim"] = cop, dim
+        desc["cu"] = [rng.randint(1, 63) / 64 for _ in range(8)]
     if mode == "maxstep":
         desc["eps"] = rng.choice([T / 32, T / 16, 3 * T / 32, T / 8, T / 4, T / 2, T, 2 * T])
     if rng.random() < 0.3:
@@ -504,7 +686,7 @@ def gen_sim(rng, sim=None, mode=None, n_dates=None):
         wc = [cw] * n_dates
         if sim == "direct":
             wi = [[rng.randint(1, 16) / 16 for _ in range(cw)] for _ in wc]
-        elif sim == "copula":
+        elif sim in ("copula", "ccopula"):
             wi = [[list(rng.choice(cells)) for _ in range(cw)] for _ in wc]
         else:
             wi = [[rng.choice([1, 2, 3, -1, -3]) for _ in range(cw)] for _ in wc]
@@ -537,12 +719,63 @@ def run(ctx):
                         uniforms=[[0.5], [0.5]], copula="independent"))
     for _ in range(ctx.n(40, 500)):
         probe_sim(ctx, gen_sim(rng, sim="copula", n_dates=1))
+    # the coupled Levy-copula simulator (CouplingProcessLevyCopula, level 1): its own (2, d, n) stacking, d = 2 (independent / Clayton)
+    # and d = 3, all three modes, 1..6 dates; directed: the witness of the per-interval restart in every row, and level 2
+    cbase = dict(base, sim="ccopula", dim=2, copula="clayton", cu=[0.3, 0.9, 0.5, 0.2])
+    probe_sim(ctx, dict(cbase, mode="jump_times", dates=[0.0, 0.5, 1.0], counts=[1, 1], incs=[[[1, 1]], [[3, -1]]], uniforms=[[0.25], [0.5]]))
+    probe_sim(ctx, dict(cbase, mode="fixed", dates=[0.0, 0.5, 1.0], counts=[2, 1], incs=[[[1, 1], [3, -1]], [[2, 1]]], uniforms=[[], []]))
+    probe_sim(ctx, dict(cbase, mode="maxstep", eps=0.125, dates=[0.0, 1.0], counts=[2], incs=[[[1, 1], [3, -1]]], uniforms=[[0.25, 0.5]], level=2))
+    probe_sim(ctx, dict(cbase, mode="jump_times", dates=[0.0, 0.5, 1.0], counts=[2, 1], incs=[[[1, 1], [3, -1]], [[2, 1]]], uniforms=[[0.25, 0.5], [0.5]]))
+    for _ in range(ctx.n(150, 1800)):
+        probe_sim(ctx, gen_sim(rng, sim="ccopula"))
+    # edge cases of the parameters (no random stream reaches them): a product date at 0+, epsilon tiny (hundreds of inserted points),
+    # epsilon far beyond the maturity, no jump anywhere with many dates, one jump exactly at distance epsilon from the maturity
+    for sim in ("direct", "ctmc", "coupled", "ccopula"):
+        one = [[1, 0]] if sim == "ccopula" else [1 if sim != "direct" else 0.5]
+        two = [[1, 0], [0, -2]] if sim == "ccopula" else ([1, -2] if sim != "direct" else [0.5, -0.25])
+        eb = dict(cbase, copula="independent") if sim == "ccopula" else dict(base, sim=sim)
+        tiny = 2.0 ** -20
+        for mode in ("fixed", "jump_times", "maxstep"):
+            e = dict(eb, mode=mode, eps=0.25)
+            un = (lambda *u: [list(x) for x in u]) if mode != "fixed" else (lambda *u: [[] for _ in u])
+            probe_sim(ctx, dict(e, dates=[0.0, tiny, 1.0], counts=[1, 1], incs=[one, one], uniforms=un([0.5], [0.5])))
+            probe_sim(ctx, dict(e, dates=[0.0, tiny, 1.0], counts=[0, 2], incs=[[], two], uniforms=un([], [0.25, 0.75])))
+            probe_sim(ctx, dict(e, dates=[0.0, 0.125, 0.25, 0.5, 0.75, 0.875, 1.0], counts=[0] * 6, incs=[[]] * 6, uniforms=[[]] * 6))
+        probe_sim(ctx, dict(eb, mode="maxstep", eps=2.0 ** -8, dates=[0.0, 1.0], counts=[2], incs=[two], uniforms=[[0.25, 0.75]]))
+        probe_sim(ctx, dict(eb, mode="maxstep", eps=1024.0, dates=[0.0, 0.5, 1.0], counts=[1, 1], incs=[one, one], uniforms=[[0.5], [0.5]]))
+        probe_sim(ctx, dict(eb, mode="maxstep", eps=0.25, dates=[0.0, 1.0], counts=[1], incs=[one], uniforms=[[0.75]]))
+        probe_sim(ctx, dict(eb, mode="maxstep", eps=0.25, dates=[0.0, 1.0], counts=[2], incs=[two], uniforms=[[0.5, 0.875]]))
+    probe_equal_dates(ctx)
+
+
+def probe_equal_dates(ctx):
+    """two equal consecutive product dates: outside the property's quantifier (dates strictly increasing); recorded for the evidence
+    whether the simulators reject them, and when they do not, that the assembly still is the model's (no oracle)"""
+    hem = dict(sigma=0.25, p=0.4, eta1=10.0, eta2=5.0, intensity=3.0)
+    for sim in ("direct", "ctmc"):
+        equal_dates_one(ctx, dict(zseed=1, cu=[0.5], family="hem", params=hem, h=0.125, sim=sim, mode="fixed", dates=[0.0, 0.5, 0.5, 1.0],
+                                  counts=[1, 0, 1], incs=[[0.5 if sim == "direct" else 1], [], [0.25 if sim == "direct" else 2]],
+                                  uniforms=[[], [], []]))
+
+
+def equal_dates_one(ctx, desc):
+    try:
+        with warnings.catch_warnings():
+            warnings.simplefilter("ignore")
+            out = run_sim(desc)
+    except Exception as e:  # noqa
+        ctx.count("c15.equal_dates", desc, nontrivial=False, branch="rejected:" + type(e).__name__)
+        return
+    ctx.count("c15.equal_dates", desc, nontrivial=False, branch="accepted")
+    lean_compare(ctx, desc, out, dict(sim=desc["sim"], mode="fixed", equal_dates=True))
 
 
 def replay(ctx, rec):
     p, d = rec["probe"], rec["input"]
     if p.startswith("c15.finer"):
         probe_finer(ctx, d)
+    elif any(a == b for a, b in zip(d["dates"], d["dates"][1:])):
+        equal_dates_one(ctx, d)
     else:
         probe_sim(ctx, d)
 
